@@ -43,6 +43,9 @@ type Profile struct {
 	AimPct         int  // chance per block that the block time is aimed at a pending maturity / jail expiry (+-1 s)
 	SecondDenom    bool // some genesis accounts also hold a second denomination ("abc"); fees may be offered in it
 	Whale          bool // one account holds ~2^90 tokens and stakes amounts whose power does not fit an int64
+	SecpValidators    bool  // consensus parameters allow secp256k1 validator keys as well
+	Trace             bool  // the application runs with a store tracer
+	BlockMaxGas       int64 // > 0: block gas limit of the consensus parameters
 	EdgeAddresses     bool // two of the genesis validators have addresses ending in 0xFF and 0x00
 	UnstakingTimeChanges bool // governance changes pos/UnstakingTime (both directions) while validators are unstaking
 	RichGenesis       bool // genesis validators in jail / unstaking (with signing infos and queue entries), as in an exported state
@@ -101,6 +104,9 @@ type World struct {
 	All   []*Actor
 	ByAddr map[string]*Actor
 	Anchor *Actor
+	// AnchorMayMiss: the anchor validator (which otherwise always signs, so that the set never empties) follows the
+	// miss pattern like everybody else
+	AnchorMayMiss bool
 	Gov    *Actor
 	DAOOwn *Actor
 	Cfg    GenesisConfig
@@ -209,6 +215,7 @@ func NewWorld(seed uint64, p Profile, idx *TxIndex) *World {
 		w.ForeignAcct = sdk.Address(r.Bytes(24)[:20])
 		g.Accounts = append(g.Accounts, GenAccount{Actor: &Actor{Name: "foreign", Addr: w.ForeignAcct, Pub: w.ForeignKey.Pub}, Balance: 500000000})
 	}
+	var lastCompletion *time.Time
 	for i := 0; i < p.GenesisVals && i < len(w.Eds)-2; i++ {
 		st := min + 1 + r.Int63n(40*min)
 		if i == 0 {
@@ -226,9 +233,17 @@ func NewWorld(seed uint64, p Profile, idx *TxIndex) *World {
 				gv.Unstaking, gv.Jailed = true, true
 				gv.JailedUntil = GenesisTime.Add(time.Duration(r.PickI64(-3600, 60, 600, 3600)) * time.Second)
 				gv.Completion = GenesisTime.Add(time.Duration(r.PickI64(30, 600, 7200)) * time.Second)
+				gv.Tombstoned = r.Chance(40) // convicted on the exported chain; its jailed-until may be an ordinary time
 			case 1:
 				gv.Unstaking = true
 				gv.Completion = GenesisTime.Add(time.Duration(r.PickI64(30, 600, 7200)) * time.Second)
+			}
+			if gv.Unstaking && lastCompletion != nil && r.Chance(50) {
+				gv.Completion = *lastCompletion // several validators in one queue slot
+			}
+			if gv.Unstaking {
+				c := gv.Completion
+				lastCompletion = &c
 			}
 		}
 		g.Validators = append(g.Validators, gv)
@@ -249,8 +264,18 @@ func NewWorld(seed uint64, p Profile, idx *TxIndex) *World {
 }
 
 func (w *World) Start(db dbm.DB) *Call {
-	spec := &InitSpec{AppState: w.Cfg.AppState(), CustomPos: w.P.CustomPos, Pruning: w.P.Pruning, MaxGas: -1}
-	return w.Env.InitChain(db, spec)
+	spec := &InitSpec{AppState: w.Cfg.AppState(), CustomPos: w.P.CustomPos, Pruning: w.P.Pruning, MaxGas: -1, SecpValidators: w.P.SecpValidators, Trace: w.P.Trace}
+	if w.P.BlockMaxGas > 0 {
+		spec.MaxGas = w.P.BlockMaxGas
+	}
+	ic := w.Env.InitChain(db, spec)
+	if ic.Panic == "" && !w.Env.Dead {
+		// read-only traffic before the first block (a node answers queries as soon as it is up)
+		for k := 0; k < 2 && w.R.Chance(w.P.ReadsPct); k++ {
+			w.RandomRead()
+		}
+	}
+	return ic
 }
 
 func (w *World) View() *View { return w.Env.Last().View }
@@ -404,7 +429,7 @@ func (w *World) finishBeginSpec(e *Env, h int64, cp CurParams) *BeginSpec {
 				if o, ok := w.MissOverride[a]; ok {
 					signed = !w.R.Chance(o)
 				}
-				if a == w.Anchor.AddrHex() {
+				if a == w.Anchor.AddrHex() && !w.AnchorMayMiss {
 					signed = true
 				}
 				b.Votes = append(b.Votes, VoteSpec{Addr: a, Power: v.VotingPower, Signed: signed})
@@ -475,7 +500,9 @@ func (w *World) pickEvidence(h int64, cp CurParams) *EvidSpec {
 			continue
 		}
 		pw := v.VotingPower
-		switch w.R.Intn(8) {
+		switch w.R.Intn(9) {
+		case 8:
+			pw = w.R.PickI64(10000000000000, 9223372036854, 9223372036855, math.MaxInt64, 1<<53) // a power whose token value does not fit 64 bits
 		case 0:
 			pw = pw + 1 + w.R.Int63n(50)
 		case 1:
